@@ -238,7 +238,22 @@ func (rp *realProg) mods(g *getoptions.GetOpt, ms []Mod) []getoptions.ModifyFn {
 		case "reqm":
 			out = append(out, g.Required(m.Strs[0]))
 		case "env":
-			out = append(out, g.GetEnv(m.Strs[0]))
+			// The variable is read when the option is defined, not when the modifier is built: build the
+			// modifier under the opposite environment and restore it before the definition runs.
+			name := m.Strs[0]
+			old, had := os.LookupEnv(name)
+			if had {
+				os.Unsetenv(name)
+			} else {
+				os.Setenv(name, "7")
+			}
+			fn := g.GetEnv(name)
+			if had {
+				os.Setenv(name, old)
+			} else {
+				os.Unsetenv(name)
+			}
+			out = append(out, fn)
 		case "arg":
 			out = append(out, g.ArgName(m.Strs[0]))
 		case "valid":
